@@ -305,7 +305,13 @@ func C01(tier string) int {
 	for _, b := range fullBad {
 		run.Violate("storage-full-slashable:"+firstWords(b, 1), b, map[string]any{"check": "C01", "storage_full": true})
 	}
+	racePassInfo, err := raceFindings(run, "six clients (four on keys of their own, two sharing a key) sign side by side through the real signer stack, single requests and batches, free-running in a child built with -race")
+	if err != nil {
+		run.HarnessErr = err
+		return run.Finish()
+	}
 	run.Coverage = map[string]any{
+		"race_detector_pass":         racePassInfo,
 		"storage_full_histories_run": fullRuns,
 		"two_key_single_processor": map[string]any{"ops_per_state": len(ops3), "states": r3.States, "transitions": r3.Transitions, "depth_completed": r3.DepthDone,
 			"approving_transitions": st3.approvals, "refusing_transitions": st3.refusals, "outcomes": st3.outcomes},
